@@ -31,7 +31,7 @@ HEADER_SPEC = ('From Coq Require Import ZArith List Bool.\nRequire Import GT.PyB
 HEADER_MODEL = HEADER_SPEC + 'Require Import GT.ScriptModel GT.BuildCorr.\n'
 CORPUS = os.path.join(common.VERIF, 'corpus', 'C08.jsonl')
 KNOWN_FALLBACK = os.path.join(common.VERIF, 'corpus', 'C08.known.json')
-KF_CLASSES = ['kf_C08_swap_cross_type', 'kf_C08_swap_zero_size', 'kf_C08_mixed_key_pairing']
+KF_CLASSES = ['kf_C08_swap_cross_type', 'kf_C08_swap_zero_size', 'kf_C08_mixed_key_order', 'kf_C08_mixed_key_pairing']
 
 
 # ------------------------------------------------------------------ transport of documents
@@ -192,6 +192,43 @@ TRICKY_KEYS = ['on', 'off', 'yes', 'no', 'null', '~', 'true', '1', '10', '9', '1
                'E', 'ä', 'z', 'Z', '日本', "it's", '"q"', 'a\nb', '\t', '0x1', '1e3', '.inf', '<<', '', 'None', 'True']
 
 
+# families of DIFFERENT strings that some normalisation would identify (Unicode NFC/NFD/NFKC, case folding, stripping,
+# numeric or boolean reading, zero-width characters): as mapping keys they are distinct members whose values differ
+NEAR_KEY_FAMILIES = [
+    ['\u00e9', 'e\u0301'], ['\u00c5', 'A\u030a', '\u212b'], ['\u1e9b\u0323', '\u017f\u0323\u0307', '\u017f\u0307\u0323'],
+    ['\u00f1o', 'n\u0303o'], ['Key', 'key', 'KEY'], ['a', 'a ', ' a', 'a\t'], ['1', '01', '1.0', '1e0', '+1'],
+    ['True', 'true', 'TRUE'], ['', '\u200b', '\ufeff'], ['12', '\uff11\uff12'], ['fi', '\ufb01'], ['ss', '\u00df'],
+    ['null', 'Null', 'None'], ['k\u0327', '\u0137'], ['x\u00a0y', 'x y'],
+]
+
+
+NEAR_FLAT = {k for fam in NEAR_KEY_FAMILIES for k in fam}
+
+
+def near_keys(rng):
+    """two or three members of one family, in random order"""
+    fam = rng.choice(NEAR_KEY_FAMILIES)
+    return rng.sample(fam, rng.randint(2, min(3, len(fam))))
+
+
+def with_near_keys(rng, m):
+    """the mapping m with a few near-equal keys added, all with different values, at random positions"""
+    items = list(m.items())
+    for j, k in enumerate(near_keys(rng)):
+        if k not in m:
+            items.insert(rng.randint(0, len(items)), (k, rng.choice([j + 1, f'v{j}', [j], {'n': j}])))
+    return dict(items)
+
+
+def reverse_keys(v):
+    """the same document with the members of every mapping in reverse order"""
+    if isinstance(v, dict):
+        return {k: reverse_keys(x) for k, x in reversed(list(v.items()))}
+    if isinstance(v, list):
+        return [reverse_keys(x) for x in v]
+    return v
+
+
 def g_scalar(rng):
     r = rng.random()
     if r < 0.3:
@@ -214,7 +251,8 @@ def g_doc(rng, depth, width, keys, top=False):
     if r < 0.5:
         return [g_doc(rng, depth - 1, width, keys) for _ in range(rng.randint(0, width))]
     ks = rng.sample(keys, rng.randint(1 if top else 0, min(width, len(keys))))
-    return {k: g_doc(rng, depth - 1, width, keys) for k in ks}
+    m = {k: g_doc(rng, depth - 1, width, keys) for k in ks}
+    return with_near_keys(rng, m) if rng.random() < 0.3 else m
 
 
 def permute(rng, v):
@@ -273,8 +311,13 @@ def g_small(rng):
             return [inner(d - 1) for _ in range(rng.randint(0, 2))]
         ks = rng.sample(KEYS[:6], rng.randint(1, 3))
         return {k: inner(d - 1) for k in ks}
-    ks = rng.sample(KEYS[:6], rng.randint(2, 4))
-    return {k: inner(1) for k in ks}
+    if rng.random() < 0.4:
+        nk = near_keys(rng)
+        ks = nk + rng.sample(KEYS[:6], rng.randint(0, 4 - len(nk)))
+        rng.shuffle(ks)
+    else:
+        ks = rng.sample(KEYS[:6], rng.randint(2, 4))
+    return {k: (j if k in NEAR_FLAT else inner(1)) for j, k in enumerate(ks)}
 
 
 def gen_items(tier, rng):
@@ -296,7 +339,7 @@ def gen_items(tier, rng):
             b = g_doc(rng, depth, width, keys, top=True)
         if not ok_doc(a) or not ok_doc(b):
             continue
-        vs = [[a, b]] + [[permute(rng, a), permute(rng, b)] for _ in range(K - 1)]
+        vs = [[a, b], [reverse_keys(a), reverse_keys(b)]] + [[permute(rng, a), permute(rng, b)] for _ in range(K - 2)]
         items.append({'kind': 'perm', 'opts': list(sl.OPTION_SETS[k % 9]), 'vars': [[enc(x), enc(y)] for x, y in vs], 'stream': 'random'})
     # (2) exhaustive: every arrangement of mappings of <= 4 keys at <= 2 depths (quick: a seeded sample of them)
     n, cap = (44, 18) if quick else (60, 120)
@@ -555,9 +598,9 @@ def check(tier, seed):
             run.cov['mixed_key_stream'] = {
                 'cases': len(okm), 'entry_points': MIXED_EPS, 'cases_auto_match': sum(1 for it, _ in okm if it['opts'][0] != 'none'),
                 'built_trees_depend_on_key_order_auto_match': differ, 'holds_C08_false': len(badm['holds']),
-                'in_class_kf_C08_mixed_key_pairing': len(badm['classes']['kf_C08_mixed_key_pairing']),
+                'in_class_kf_C08_mixed_key_order': len(badm['classes']['kf_C08_mixed_key_order']),
                 'note': 'keys of mixed type (int/float/bool/str): LeafNode.__lt__ falls back to str() on TypeError, sorted() is then '
-                        'not canonical; judged by holds_C08 (cost invariance, copy == at cost 0; pairing: open finding D40); '
+                        'not canonical; judged by holds_C08 (cost invariance, copy == at cost 0; cost / pairing among the freely matched pairs: open finding D40); '
                         'no model correspondence for this stream'}
         if (st['broken'] or bad_corr) and not run.violations:
             more = gen_items('thorough', random.Random(seed * 7919 + 1))[:700]
@@ -568,7 +611,9 @@ def check(tier, seed):
                 what = st['broken'] or {'stage': 'correspondence', 'statement': 'corr_C08',
                                         'first_disagreeing_input': pub(ok[bad_corr[0]][0]) if bad_corr else None}
                 run.violation({'kind': 'tie-broken', 'what': what}, no_input=True)
-        run.cov['rule'] = ('(1) seeded nested JSON documents (string keys incl. "", YAML-sensitive and order-sensitive spellings; all five '
+        run.cov['rule'] = ('(1) seeded nested JSON documents (string keys incl. "", YAML-sensitive and order-sensitive spellings, and in ~30% of the '
+                           'mappings two or three DIFFERENT keys that a normalisation would identify - NFC/NFD, case, blanks, 1/01/1.0, '
+                           'True/true, zero-width, full-width - with different values; arrangement 1 reverses every mapping; all five '
                            'scalar types) with a partner (mutation or fresh) x K random arrangements of the keys of every mapping of BOTH '
                            'documents x 9 option sets; (2) documents with mappings of <= 4 keys at <= 2 depths: all arrangements of the '
                            'first document (quick: a seeded sample of 18) against arrangements of the partner; (3) lists of scalars / '
